@@ -677,6 +677,8 @@ fn random_bits(xs: &mut Xstate) -> Xresult {
     let mut buf = Vec::with_capacity(i);
     buf.resize(i, 0);
     getrandom::getrandom(buf.as_mut_slice()).unwrap();
+    #[cfg(feature = "verif_hooks")]
+    crate::file::verif_env::entropy(buf.as_mut_slice());
     let bs = if n % 8 > 0 {
         Xbitstr::from(buf).read(n).unwrap()
     } else {
